@@ -19,6 +19,13 @@
 (*    By the invariant of mode "image" the hash of a file is a function of *)
 (*    the image's bytes only, so here a hash is the content class.         *)
 (*                                                                         *)
+(* mode "auth"   `signapp message` invoked MaxSteps times: Env picks the   *)
+(*    image, the iteration and where the message goes (0 = printed, n =    *)
+(*    the n-th -o path), and what the -o paths hold before the first       *)
+(*    invocation (nothing / an authorization for some other image).  Sys   *)
+(*    computes the hash of the image given and writes a new authorization  *)
+(*    over whatever is there.                                              *)
+(*                                                                         *)
 (* Variant # "ok" swaps in a defective Sys; used only by the negative      *)
 (* configurations (each invariant must be violated by its variant).        *)
 (***************************************************************************)
@@ -31,8 +38,11 @@ CONSTANTS Images,      \* set of images; an image is a set of areas [z, o, d]
           ImgLists,    \* sign mode: the -a lists Env may choose
           PubPaths,    \* sign mode: the -p paths Env may choose (numbers)
           MaxRuns,
-          Modes,       \* subset of {"image", "sign"}
-          Variant      \* "ok" | "reuse" | "leak" | "signpath" | "twopubs" | "fileorder"
+          Modes,       \* subset of {"image", "sign", "auth"}
+          Iters,       \* auth mode: iterations Env may ask for
+          OutPaths,    \* auth mode: 0 = print, n > 0 = the n-th -o path
+          MaxSteps,    \* auth mode: invocations in a row
+          Variant      \* "ok" | "reuse" | "leak" | "signpath" | "twopubs" | "fileorder" | "stale"
 
 VARIABLES mode,
           \* ---- image mode
@@ -44,10 +54,17 @@ VARIABLES mode,
           p,           \* parser state after reading `file`
           done,
           \* ---- sign mode
-          pc, run, plan, cur, sk, fresh, gens, fs, idx, h, sig, outleak, obs
+          pc, run, plan, cur, sk, fresh, gens, fs, idx, h, sig, outleak, obs,
+          \* ---- auth mode
+          afs,         \* -o path -> the authorization it holds ([found, hash, gotiter])
+          apre,        \* afs before the first invocation
+          astep,       \* invocations so far
+          alast,       \* the observable record of the last invocation
+          aplan        \* what Env asked for so far
 ivars == <<img, pending, file, wzone, extra, p, done>>
 svars == <<pc, run, plan, cur, sk, fresh, gens, fs, idx, h, sig, outleak, obs>>
-vars  == <<mode, ivars, svars>>
+avars == <<afs, apre, astep, alast, aplan>>
+vars  == <<mode, ivars, svars, avars>>
 
 (***************************************************************************)
 (* image mode                                                              *)
@@ -75,14 +92,24 @@ SignInit == /\ pc = "idle" /\ run = 0 /\ plan = NoPlan /\ cur = [imgs |-> <<>>, 
 ImageIdle == /\ img = {} /\ pending = {} /\ file = <<>> /\ wzone = NoA /\ extra = 0
              /\ p = PInit /\ done = FALSE
 
+APaths == OutPaths \ {0}
+\* what an -o path may hold beforehand: an authorization for an image that is none of ours
+OtherAuth == [found |-> TRUE, hash |-> 99, gotiter |-> 7]
+NoStep == [img |-> 0, iter |-> 0, out |-> 0, exit |-> 0, found |-> FALSE, hash |-> 0, gotiter |-> 0]
+AuthIdle == /\ afs = [o \in APaths |-> NoAuth] /\ apre = afs /\ astep = 0 /\ alast = NoStep
+            /\ aplan = <<>>
+
 Init == /\ mode \in Modes
         /\ IF mode = "image"
            THEN /\ img \in Images
                 /\ pending \in AllCuts(SetToSeq(img))
                 /\ file = <<>> /\ wzone = NoA /\ extra = ExtraEla /\ p = PInit /\ done = FALSE
-                /\ SignInit
-           ELSE /\ ImageIdle
-                /\ SignInit
+                /\ SignInit /\ AuthIdle
+           ELSE IF mode = "sign"
+           THEN /\ ImageIdle /\ SignInit /\ AuthIdle
+           ELSE /\ ImageIdle /\ SignInit
+                /\ afs \in [APaths -> {NoAuth, OtherAuth}] /\ apre = afs
+                /\ astep = 0 /\ alast = NoStep /\ aplan = <<>>
 
 Put(r) == /\ file' = Append(file, r) /\ p' = PStep(p, r)
 
@@ -95,17 +122,17 @@ SelectZone == /\ mode = "image" /\ ~done
                     /\ IF needed THEN TRUE ELSE extra > 0
                     /\ extra' = IF needed THEN extra ELSE extra - 1
                     /\ wzone' = z /\ Put(Ela(z))
-              /\ UNCHANGED <<mode, img, pending, done, svars>>
+              /\ UNCHANGED <<mode, img, pending, done, svars, avars>>
 
 WriteData == /\ mode = "image" /\ ~done
              /\ \E r \in pending :
                    /\ r.z = wzone
                    /\ pending' = pending \ {r} /\ Put(Data(r.a, r.d))
-             /\ UNCHANGED <<mode, img, wzone, extra, done, svars>>
+             /\ UNCHANGED <<mode, img, wzone, extra, done, svars, avars>>
 
 WriteEof == /\ mode = "image" /\ ~done /\ pending = {}
             /\ Put(Eof) /\ done' = TRUE
-            /\ UNCHANGED <<mode, img, pending, wzone, extra, svars>>
+            /\ UNCHANGED <<mode, img, pending, wzone, extra, svars, avars>>
 
 \* what compute_app_hash feeds to SHA-256 once the file is complete
 HashInput == IF Variant = "fileorder" THEN FileOrderInput(file) ELSE HashInputP(p)
@@ -132,14 +159,14 @@ StartRun == /\ mode = "sign" /\ pc \in {"idle", "exited"} /\ run < MaxRuns
             /\ run' = run + 1 /\ pc' = "gen" /\ gens' = <<>> /\ idx' = 1 /\ outleak' = FALSE
             /\ fs' = {[f EXCEPT !.w = FALSE] : f \in (IF run = 0 THEN ImgFiles ELSE fs)}
             /\ obs' = IF pc = "exited" THEN ObserveRun(obs, RunRec) ELSE obs
-            /\ UNCHANGED <<mode, ivars, sk, fresh, h, sig>>
+            /\ UNCHANGED <<mode, avars, ivars, sk, fresh, h, sig>>
 
 GenKey == /\ mode = "sign" /\ pc = "gen"
           /\ IF Variant = "reuse" /\ sk # 0
              THEN UNCHANGED <<sk, fresh, gens>>          \* a module-level key survives the run
              ELSE sk' = fresh /\ fresh' = fresh + 1 /\ gens' = Append(gens, fresh)
           /\ pc' = "wpub"
-          /\ UNCHANGED <<mode, ivars, run, plan, cur, fs, idx, h, sig, outleak, obs>>
+          /\ UNCHANGED <<mode, avars, ivars, run, plan, cur, fs, idx, h, sig, outleak, obs>>
 
 WritePub == /\ mode = "sign" /\ pc = "wpub"
             /\ LET f1 == Write(fs, FileRec(cur.pub, "pub", sk, 0, 0, FALSE))
@@ -150,28 +177,45 @@ WritePub == /\ mode = "sign" /\ pc = "wpub"
                          ELSE f1
                IN fs' = f2
             /\ pc' = "hash"
-            /\ UNCHANGED <<mode, ivars, run, plan, cur, sk, fresh, gens, idx, h, sig, outleak, obs>>
+            /\ UNCHANGED <<mode, avars, ivars, run, plan, cur, sk, fresh, gens, idx, h, sig, outleak, obs>>
 
 \* compute_app_hash(image) -- by HashInputOk (image mode) a function of the content only
 HashI == /\ mode = "sign" /\ pc = "hash"
          /\ h' = Contents[cur.imgs[idx]] /\ pc' = "sign"
-         /\ UNCHANGED <<mode, ivars, run, plan, cur, sk, fresh, gens, fs, idx, sig, outleak, obs>>
+         /\ UNCHANGED <<mode, avars, ivars, run, plan, cur, sk, fresh, gens, fs, idx, sig, outleak, obs>>
 
 SignI == /\ mode = "sign" /\ pc = "sign"
          /\ sig' = [by |-> sk, over |-> IF Variant = "signpath" THEN 0 ELSE h]
          /\ pc' = "wsig"
-         /\ UNCHANGED <<mode, ivars, run, plan, cur, sk, fresh, gens, fs, idx, h, outleak, obs>>
+         /\ UNCHANGED <<mode, avars, ivars, run, plan, cur, sk, fresh, gens, fs, idx, h, outleak, obs>>
 
 WriteSigI == /\ mode = "sign" /\ pc = "wsig"
              /\ fs' = Write(fs, FileRec(SigPath(cur.imgs[idx]), "sig", 0, sig.by, sig.over, FALSE))
              /\ idx' = idx + 1
              /\ pc' = IF idx = Len(cur.imgs) THEN "exit" ELSE "hash"
-             /\ UNCHANGED <<mode, ivars, run, plan, cur, sk, fresh, gens, h, sig, outleak, obs>>
+             /\ UNCHANGED <<mode, avars, ivars, run, plan, cur, sk, fresh, gens, h, sig, outleak, obs>>
 
 Exit == /\ mode = "sign" /\ pc = "exit" /\ pc' = "exited"
-        /\ UNCHANGED <<mode, ivars, run, plan, cur, sk, fresh, gens, fs, idx, h, sig, outleak, obs>>
+        /\ UNCHANGED <<mode, avars, ivars, run, plan, cur, sk, fresh, gens, fs, idx, h, sig, outleak, obs>>
 
-Next == SelectZone \/ WriteData \/ WriteEof
+(***************************************************************************)
+(* auth mode                                                               *)
+(***************************************************************************)
+\* `signapp message -a img -i it [-o path]`: hash the image given, build the authorization for
+\* (hash, it), print it or write it over whatever the path holds
+Message == /\ mode = "auth" /\ astep < MaxSteps
+           /\ \E i \in DOMAIN Contents, it \in Iters, o \in OutPaths :
+                LET new   == [found |-> TRUE, hash |-> Contents[i], gotiter |-> it]
+                    stale == IF o = 0 THEN FALSE ELSE (Variant = "stale" /\ afs[o].found)
+                    wr    == IF stale THEN afs[o] ELSE new          \* stale: keeps what is there
+                IN /\ afs' = IF o = 0 THEN afs ELSE [afs EXCEPT ![o] = wr]
+                   /\ alast' = [img |-> i, iter |-> it, out |-> o, exit |-> 0, found |-> TRUE,
+                                hash |-> wr.hash, gotiter |-> wr.gotiter]
+                   /\ aplan' = Append(aplan, [img |-> i, iter |-> it, out |-> o])
+           /\ astep' = astep + 1
+           /\ UNCHANGED <<mode, ivars, svars, apre>>
+
+Next == Message \/ SelectZone \/ WriteData \/ WriteEof
         \/ StartRun \/ GenKey \/ WritePub \/ HashI \/ SignI \/ WriteSigI \/ Exit
 Spec == Init /\ [][Next]_vars
 
@@ -186,11 +230,24 @@ SigVerifies    == Exited => AllSigsVerifyP(RunRec, Contents)
 PrivNotWritten == (mode = "sign") => PrivNotWrittenP(RunRec)
 KeyFreshPerRun == Exited => KeyFreshPerRunP(obs, RunRec)
 
+AuthBinds      == (mode = "auth" /\ astep > 0) => AuthBindsP(alast, Contents[alast.img])
+\* every -o path holds what the last invocation aimed at it asked for (or what it held before)
+AuthFiles      == (mode = "auth") =>
+                     \A o \in APaths :
+                        LET hits == {k \in DOMAIN aplan : aplan[k].out = o} IN
+                        IF hits = {} THEN afs[o] = apre[o]
+                        ELSE LET k == CHOOSE x \in hits : \A y \in hits : y <= x IN
+                             afs[o] = [found |-> TRUE, hash |-> Contents[aplan[k].img],
+                                       gotiter |-> aplan[k].iter]
+
 \* vacuity guards (negative configurations: each of these must be violated)
 NeverDone      == ~done
 NeverSecondRun == ~(Exited /\ run = 2)
 OrderIrrelevant == done => FileOrderInput(file) = ConcatSorted(img)   \* false: files are out of order
 
+NeverReusesPath == ~(mode = "auth" /\ astep >= 2 /\ aplan[1].out # 0 /\ aplan[2].out = aplan[1].out
+                      /\ aplan[1].img # aplan[2].img)
+AuthTerminal  == mode = "auth" /\ astep = MaxSteps
 ImageTerminal == mode = "image" /\ done
 SignTerminal  == Exited /\ run = MaxRuns
 =============================================================================
